@@ -305,6 +305,11 @@ func (p *Path) conv(dst, src types.Type, x Value) Value {
 		case Slice: // []byte or []rune -> string
 			if es, ok := su.(*types.Slice); ok {
 				if ew, _, _ := intInfo(es.Elem()); ew == 8 {
+					if len(xv) == 1 {
+						if sb, ok := xv[0].(strBlob); ok {
+							return sb.s
+						}
+					}
 					b := make([]*Term, len(xv))
 					for i, e := range xv {
 						b[i] = e.(*Term)
@@ -326,8 +331,8 @@ func (p *Path) conv(dst, src types.Type, x Value) Value {
 			if xs.sym != nil {
 				r, ok := p.renderStr(xs)
 				if !ok {
-					// keep the structured string as an opaque byte slice holder
-					panic(p.unsupported("[]byte of structured string " + xs.sym.kind))
+					// abstract byte string: only string(...) of it, equality and storage are supported
+					return Slice{strBlob{xs}}
 				}
 				xs = r
 			}
@@ -366,3 +371,13 @@ func (p *Path) conv(dst, src types.Type, x Value) Value {
 
 var _ = math.MaxInt
 var _ = utf8.RuneError
+
+// strBlob: the bytes of a structured string whose rendering is not determined
+// (decimal text of a symbolic amount, JSON of an asset record).
+type strBlob struct{ s Str }
+
+// jsonBlob: json.Marshal(v) of a value the code later json.Unmarshal's back.
+type jsonBlob struct {
+	t types.Type
+	v Value
+}
